@@ -51,7 +51,7 @@ VARIANTS = ['asis', 'perm', 'dict', 'repeat', 'series', 'dict0',
 def set_strategy(tier):
     regular = st.fixed_dictionaries({
         'examples': G.examples_strategy(tier, allow_none=True),
-        'opts': G.opts_strategy(with_pruning=False),
+        'opts': G.opts_strategy(with_pruning=True),
         'size': G.size_strategy(),
     })
     # nothing to extract from: only nulls, or only blanks that the options
@@ -59,7 +59,7 @@ def set_strategy(tier):
     nothing = st.fixed_dictionaries({
         'examples': st.lists(st.sampled_from([None, None, '', ' ', '\t ']),
                              min_size=1, max_size=4),
-        'opts': G.opts_strategy(with_pruning=False).map(
+        'opts': G.opts_strategy(with_pruning=True).map(
             lambda o: dict(o, remove_empties=True, strip=True)),
         'size': G.size_strategy(),
     })
@@ -302,6 +302,12 @@ def run(case, ctx):
         variant = step['variant']
         kept = G.kept_examples(c)
         distinct = sorted(set(kept))
+        if variant == 'repeat' and (
+                s['opts'].get('max_patterns') is not None
+                or s['opts'].get('min_strings_per_pattern', 1) > 1):
+            # pruning goes by how often strings occur: with it, repeating
+            # an example is supplying a different multiset
+            variant = 'perm'
         if variant in ('series', 'series-cat'):
             if any(x is not None and '\x00' in x for x in xs):
                 variant = 'perm'
